@@ -59,6 +59,7 @@ pub fn gen_float(rng: &mut Rng, sw: &Swarm) -> Op {
         34 => Op::new(&nm("fmt")).a(a).form(rng.below(6)),
         35 => Op::new(&nm("query")).a(a).b(b),
         36 | 37 => Op::new(rng.pick(&["fd.todec", "fd.tobin", "fd.rounding"])).a(a).dst(d),
+        38 => Op::new(&nm("rt")).a(a).dst(d).form(rng.below(9)).n(rng.below(40) as i64),
         _ => Op::new(&nm("clonefrom")).a(a).dst(d),
     }
 }
@@ -98,6 +99,10 @@ pub fn gen_ratio(rng: &mut Rng, sw: &Swarm) -> Op {
         34 => Op::new(rng.pick(&["r.relax", "r.asrelaxed", "x.canon"])).a(a).dst(d).form(form(rng)),
         35 => Op::new("r.hash").a(a).b(b),
         36 => Op::new(rng.pick(&["r.simplest", "r.nearest", "r.isint"])).a(a).b(b).dst(d).n(rng.below(3) as i64),
+        37 | 38 => {
+            let kb = rng.pick(&[1usize, 8, 63, 64, 65, 130]);
+            Op::new(&nm("rt")).a(a).dst(d).form(rng.below(8)).lit(gen_lit_bits(rng, kb))
+        }
         _ => Op::new(&nm("clonefrom")).a(a).dst(d),
     }
 }
